@@ -30,7 +30,7 @@ RULE = ("1-8 stations of mixed EVSE classes (registration order != id order; id 
         "departure<=arrival, estimate<=arrival, duplicate (id, station)); ~10 valid cases are re-run in a second process with another "
         "PYTHONHASHSEED. The recording hooks also check: network.get_ev / active_station_ids, no current on a vacant station, the "
         "event list given to EventQueue and the schedule dict returned by the scheduler are not modified, objects handed out earlier "
-        "do not change later. Family sibling: an earlier experiment on a separately built network with the same station ids (EVSEs of the site types come from get_evse_by_type) is aborted by a scheduler fault with EVs plugged in, then the input runs on a freshly built network (which must be vacant). 15% of histories use a user-defined EVEvent subclass labelled 'Plugin' for half of the arrivals. Orthogonal options: 30% of histories also contain bare acnsim.Event / user-defined Event subclasses incl. one labelled 'Recompute' that must trigger the scheduler (own precedence, unknown event_type; also after the last departure); 20% build the Simulator around a still empty EventQueue that the caller fills afterwards through its own reference (sim.event_queue must be that object); family deepcopy (the freshly built simulator is duplicated with copy.deepcopy, the copy is run first, then the original); the resume family continues on the same object, on a deep copy, or on a to_json/from_json reload of the interrupted simulator. distinct = distinct (stations, sessions, recomputes, max_recompute, scheduler kind/seed, family, id style); "
+        "do not change later. Family sibling: an earlier experiment on a separately built network with the same station ids (EVSEs of the site types come from get_evse_by_type) is aborted by a scheduler fault with EVs plugged in, then the input runs on a freshly built network (which must be vacant). 15% of histories use a user-defined EVEvent subclass labelled 'Plugin' for half of the arrivals. Orthogonal options: in 20% the scheduler object has already served another Simulator and is installed with update_scheduler(); 30% of histories also contain bare acnsim.Event / user-defined Event subclasses incl. one labelled 'Recompute' that must trigger the scheduler (own precedence, unknown event_type; also after the last departure); 20% build the Simulator around a still empty EventQueue that the caller fills afterwards through its own reference (sim.event_queue must be that object); family deepcopy (the freshly built simulator is duplicated with copy.deepcopy, the copy is run first, then the original); the resume family continues on the same object, on a deep copy, or on a to_json/from_json reload of the interrupted simulator. distinct = distinct (stations, sessions, recomputes, max_recompute, scheduler kind/seed, family, id style); "
         "ambiguous (skipped by the model comparison, still monitored) = a remaining demand within 1e-7 of the 1e-3 threshold (incl. the "
         "deliberate on-threshold / one-ulp sessions) or a raising plugin that shares its timestamp with another plugin (C11)")
 ASSUMPTIONS = ["the pending queue is modelled as a stably sorted list; CPython heapq order inside groups of equal (timestamp, precedence) "
